@@ -70,6 +70,24 @@ fn base(seed: u64, source: &str, sid: &[u8]) -> Option<Base> {
         let pat = if j < 48 { perm[j % 16] } else { rng.gen_range(0..16) };
         for i in 0..K { if (pat >> i) & 1 == 1 { bits[(j * K + i) >> 3] |= 1 << ((j * K + i) & 7); } }
     }
+    let mut skeys = skeys;
+    if source == "z" {
+        // special key VALUES (keys are arbitrary 32-byte strings): all-zero / all-ones on the chosen side, on the other side, on both,
+        // equal pairs — at the root level (base OT 4j) and at inner levels, several trees
+        for (n, t) in [0usize, 1, 2, 5, 17, 31, 62, 63].iter().enumerate() {
+            let i = t * K + [0usize, 1, 3, 0, 2, 0, 0, 3][n];
+            let c = bit(&bits, i);
+            let (z, f): (Key, Key) = ([0u8; 32], [0xffu8; 32]);
+            match n % 6 {
+                0 => { if c == 0 { skeys[i].0 = z } else { skeys[i].1 = z } }          // chosen key zero
+                1 => { if c == 0 { skeys[i].1 = z } else { skeys[i].0 = z } }          // other key zero
+                2 => { skeys[i] = (z, z) }
+                3 => { if c == 0 { skeys[i].0 = f } else { skeys[i].1 = f } }
+                4 => { let v = skeys[i].0; skeys[i].1 = v }                            // equal pair
+                _ => { if c == 0 { skeys[i].0 = z } else { skeys[i].1 = z } }
+            }
+        }
+    }
     let dks = (0..N).map(|i| if bit(&bits, i) == 0 { skeys[i].0 } else { skeys[i].1 }).collect();
     Some(Base { skeys, bits, dks })
 }
@@ -196,7 +214,7 @@ fn scenario(cx: &mut Ctx, cache: &mut Option<Honest>, s: &Scen) {
         "honest" => {
             *cache = None;
             cx.rep.hist(&format!("sid-len:{}", s.sid.len()));
-            cx.rep.hist(&format!("base-ot:{}", if s.e == "e" { "endemic-exchange" } else { "hooks" }));
+            cx.rep.hist(&format!("base-ot:{}", if s.e == "e" { "endemic-exchange" } else if s.e == "z" { "hooks, special key values" } else { "hooks" }));
             if get_honest(cx, cache, &s.sid, s.seed, &s.e, s.a == 1) && cx.idx == 0 {
                 let h = cache.as_ref().unwrap();
                 cx.rep.sample(json!({"scenario": cx.line, "choice_bits": hex::encode(h.base.bits), "random_choices": hex::encode(&h.ev.0), "pprf_tree0": hex::encode(&h.out[..TREE])}));
@@ -317,7 +335,7 @@ pub fn run(o: &Opts, drv: &mut Driver, rep: &mut Report) {
         for k in 0..n_honest {
             let sid: Vec<u8> = (0..lens[k % 4]).map(|_| rng.gen()).collect();
             let seed = rng.next_u64() >> 1;
-            scenario(&mut cx, &mut cache, &sc("honest", &sid, seed, 1, 0, 0, 0, if k % 4 == 3 || k == 1 { "e" } else { "h" }));
+            scenario(&mut cx, &mut cache, &sc("honest", &sid, seed, 1, 0, 0, 0, if k % 4 == 3 || k == 1 { "e" } else if k % 4 == 2 { "z" } else { "h" }));
         }
         let sid: Vec<u8> = (0..32).map(|_| rng.gen()).collect();
         scenario(&mut cx, &mut cache, &sc("dirty", &sid, rng.next_u64() >> 1, 0, 0, 0, 0, "-"));
